@@ -296,23 +296,32 @@ Fixpoint insert_sorted (s : bytes) (l : list bytes) : list bytes :=
   end.
 Definition sort_names (l : list bytes) : list bytes := fold_right insert_sorted [] l.
 
+(* valToEnum[v] = enumVal(i) for i, v := range values : for a value listed twice the LAST position wins *)
+Definition find_value_last (values : list bytes) (s : bytes) : option N :=
+  fold_left (fun acc iv => if bytes_eqb (snd iv) s then Some (fst iv) else acc)
+            (combine (map N.of_nat (seq 0 (length values))) values) None.
+
+(* one iteration of ecolumn.New's loop: AppendNil / AppendString on the factory state (values, ranks) *)
+Definition enum_step (strict : bool) (st : list bytes * list N) (s : option bytes) : outcome (list bytes * list N) :=
+  let '(vals, acc) := st in
+  match s with
+  | None => Ok (vals, acc ++ [c_nullValue])
+  | Some b =>
+      match find_value_last vals b with
+      | Some rk => Ok (vals, acc ++ [rk])
+      | None =>
+          if strict then Fail
+          else if (N.to_nat c_maxCardinality <=? length vals)%nat then Fail
+          else Ok (vals ++ [b], acc ++ [N.of_nat (length vals)])
+      end
+  end.
+
 (* enum factory (ecolumn.New): ranks in order of first occurrence unless values are declared *)
 Definition enum_new (data : list (option bytes)) (values : list bytes) : outcome coldata :=
   if (N.to_nat c_maxCardinality <? length values)%nat then Fail
   else
     let strict := negb (Nat.eqb (length values) 0) in
-    do r <- ofold (fun '(vals, acc) s =>
-                     match s with
-                     | None => Ok (vals, acc ++ [c_nullValue])
-                     | Some b =>
-                         match find_value vals b 0 with
-                         | Some rk => Ok (vals, acc ++ [rk])
-                         | None =>
-                             if strict then Fail
-                             else if (N.to_nat c_maxCardinality <=? length vals)%nat then Fail
-                             else Ok (vals ++ [b], acc ++ [N.of_nat (length vals)])
-                         end
-                     end) data (values, []);
+    do r <- ofold (enum_step strict) data (values, []);
     Ok (ECol (snd r) (fst r) strict).
 
 (* ecolumn.NewConst: the value is resolved once (even when count = 0), then repeated *)
@@ -323,7 +332,7 @@ Definition enum_new_const (v : option bytes) (n : nat) (values : list bytes) : o
     match v with
     | None => Ok (ECol (repeat c_nullValue n) values strict)
     | Some b =>
-        match find_value values b 0 with
+        match find_value_last values b with
         | Some r => Ok (ECol (repeat r n) values strict)
         | None =>
             if strict then Fail
